@@ -169,7 +169,8 @@ class Strh(ThumbInstruction):
         assert self.rt.num < 8
         rn = self.rn.num
         rt = self.rt.num
-        imm5 = self.imm5 << 1
+        assert self.imm5 % 2 == 0
+        imm5 = self.imm5 >> 1
         tokens = self.get_tokens()
         tokens[0][0:3] = rt
         tokens[0][3:6] = rn
@@ -192,7 +193,8 @@ class Ldrh(ThumbInstruction):
         assert self.rt.num < 8
         rn = self.rn.num
         rt = self.rt.num
-        imm5 = self.imm5
+        assert self.imm5 % 2 == 0
+        imm5 = self.imm5 >> 1
         tokens = self.get_tokens()
         tokens[0][0:3] = rt
         tokens[0][3:6] = rn
